@@ -15,7 +15,15 @@ SM_TEXT = ("FrameSM.tla is a state machine over frame handles and a heap of colu
   "pokes to a small depth and checks WellFormed plus the action properties FreshResult, OperandsUntouched and PokeLocal. Seeded histories on real "
   "frames record after every call each frame's columns, cells, the memory-sharing partition of all live columns, grouping and attribute/key "
   "coherence, and are validated step by step by FrameSMTrace; pokes are really executed so an alias shows up as a change in another object. ")
+ST_TEXT = ("Store.tla is a file-system state machine (path -> configuration, content id, compression); StoreMC enumerates every write->read behaviour over "
+  "owner x format x suffix x separator x header x encoding x content class x {whole, restricted in every order, alias, dtype mapping} and 3-step interleavings "
+  "(overwrites, two suffixes of one stem), checking ReallyCompressed and ReadAfterWrite on the model; behaviours are replayed in a temp directory and StoreTrace "
+  "judges file existence, compression magic, column names/order, cells, dtype kinds, restriction = read-all-then-select, alias = method. ")
 CHECKS = {
+ "C12": dict(engine="Store", text=ST_TEXT + "C12 owns write clauses and whole-file reads.", design="§3 C12",
+   technique="TLA+ file-system machine (Store) enumerated by TLC + replay on real files + trace validation"),
+ "C14": dict(engine="Store", text=ST_TEXT + "C14 owns reads with a restriction, an alias or a dtype/type mapping.", design="§3 C14",
+   technique="TLA+ file-system machine (Store) enumerated by TLC + replay on real files + trace validation"),
  "C10": dict(engine="VectorCtor",
    text="VectorCtor.tla states the inference / missing-value laws over tag sequences (18 kinds of Python and NumPy scalars incl. None, NaN, NaT, empty string): the missing set, the inferred class and its missing representation, value preservation, and names the free points (NaT outside date-likes, strings mixed with non-stringifiable values, caller-chosen dtypes on foreign values). VectorCtorMC enumerates every tag sequence of length <= 3; each is built for real with and without explicit dtypes and two payload variants, observing dtype, is_na, tolist, rebuild-equal, na_dtype/na_value, drop_na, replace_na, and equal() matrices over pools of vectors (reflexive/symmetric/transitive judged in TLA+); judged by the VectorCtorTrace monitor.",
    design="§3 C10", technique="TLA+ spec (VectorCtor) + TLC exhaustive enumeration of tag sequences + monitor-style trace validation"),
@@ -60,6 +68,7 @@ CHECKS = {
    design="§3 C11", technique="TLA+ spec (VectorOps) + TLC exhaustive enumeration + monitor-style trace validation of real calls"),
 }
 ENGINES = [
+ dict(name="Store", path="spec/Store.tla", serves_properties=["C12", "C14"], kind_free_text="TLA+ file-system machine + StoreMC + StoreTrace"),
  dict(name="VectorCtor", path="spec/VectorCtor.tla", serves_properties=["C10"], kind_free_text="TLA+ construction/NA laws + VectorCtorMC + VectorCtorTrace monitor (TLC)"),
  dict(name="AggJit", path="spec/AggJit.tla", serves_properties=["C08"], kind_free_text="TLA+ JIT-state history machine + AggJitMC + AggJitTrace; harness/jit_runner.py subprocess executor"),
  dict(name="Agg", path="spec/Agg.tla", serves_properties=["C07"], kind_free_text="TLA+ helper definitions + AggMC + AggTrace monitor (TLC)"),
